@@ -641,3 +641,40 @@ impl crate::save::upload::Table for Profile {
         file.write_u16::<BE>(Self::footer()).expect("trailer");
     }
 }
+
+/// verification hooks: read access to the stored values, epoch counter
+#[cfg(robopoker_verif)]
+impl Profile {
+    pub fn verif_memory(&self, bucket: &Bucket, edge: &Edge) -> Option<(Utility, Probability)> {
+        self.strategies
+            .get(bucket)
+            .and_then(|s| s.get(edge))
+            .map(|m| (m.regret(), m.policy()))
+    }
+    pub fn verif_buckets(&self) -> Vec<(Bucket, Vec<(Edge, Utility, Probability)>)> {
+        self.strategies
+            .iter()
+            .map(|(b, s)| {
+                (
+                    b.clone(),
+                    s.iter()
+                        .map(|(e, m)| (e.clone(), m.regret(), m.policy()))
+                        .collect(),
+                )
+            })
+            .collect()
+    }
+    pub fn verif_set_epochs(&mut self, epochs: usize) {
+        self.iterations = epochs;
+    }
+    pub fn verif_set_memory(&mut self, bucket: &Bucket, edge: &Edge, regret: Utility, policy: Probability) {
+        let memory = self
+            .strategies
+            .entry(bucket.clone())
+            .or_insert_with(Strategy::default)
+            .entry(edge.clone())
+            .or_insert_with(Memory::default);
+        memory.set_regret(regret);
+        memory.set_policy(policy);
+    }
+}
